@@ -71,6 +71,12 @@ func newWSHandler(host string, dial dialFunc, conn gkm.Gauge) http.Handler {
 		}
 		defer out.Close()
 
+		// a request without a User-Agent header goes out without one:
+		// r.Write would add Go's default User-Agent otherwise
+		if _, ok := r.Header["User-Agent"]; !ok {
+			r.Header.Set("User-Agent", "")
+		}
+
 		err = r.Write(out)
 		if err != nil {
 			log.Printf("[ERROR] Error copying request for %s. %s", r.URL, err)
